@@ -29,6 +29,36 @@ pub struct RustDocument {
     resolved: HashMap<NodeId, Rc<RustNode>>,
 }
 
+/// The kind of global component a reference is looking for; types and elements have separate symbol spaces in XSD
+#[derive(Clone, Copy, PartialEq, Debug)]
+pub enum ComponentKind {
+    /// `type=` and `base=`: a complex or simple type (a model group is read like a complex type)
+    Type,
+    /// `ref=` on an element and `element=` on a message part: a global element
+    Element,
+    /// anything else that can be referred to (attributes, attribute groups)
+    Other,
+}
+
+impl ComponentKind {
+    fn matches_tag(self, tag_name: &str) -> bool {
+        match self {
+            ComponentKind::Type => matches!(tag_name, "complexType" | "simpleType" | "group"),
+            ComponentKind::Element => tag_name == "element",
+            ComponentKind::Other => !matches!(tag_name, "complexType" | "simpleType" | "element"),
+        }
+    }
+
+    fn matches_type(self, rust_type: &crate::model::structures::RustType) -> bool {
+        use crate::model::structures::RustType;
+        match self {
+            ComponentKind::Type => matches!(rust_type, RustType::Complex(_) | RustType::Simple(_)),
+            ComponentKind::Element => matches!(rust_type, RustType::Element(_)),
+            ComponentKind::Other => matches!(rust_type, RustType::Ignore),
+        }
+    }
+}
+
 /// The part of a `RustDocument` that belongs to the file that is being read
 pub(crate) struct FileScope {
     namespace_lookup: HashMap<String, Rc<Namespace>>,
@@ -159,21 +189,26 @@ impl RustDocument {
         }
     }
 
+    /// Find the global component `xml_name` of the given kind in `namespace`: among the components that were read
+    /// already, otherwise (a reference to a component that is declared later) in the XML document of `start_node`.
     pub fn find_node_by_xml_name<'n>(
         &mut self,
         start_node: &Node<'n, 'n>,
         xml_name: &str,
         namespace: Option<&Namespace>,
+        kind: ComponentKind,
     ) -> Option<Rc<RustNode>> {
         let rust_node = self.nodes.iter().find(|node| {
-            node.rust_type.xml_name().is_some_and(|n| n == xml_name) && node.in_namespace.as_deref() == namespace
+            node.rust_type.xml_name().is_some_and(|n| n == xml_name)
+                && node.in_namespace.as_deref() == namespace
+                && kind.matches_type(&node.rust_type)
         });
 
         if let Some(rust_node) = rust_node {
             return Some(rust_node.clone());
         }
 
-        try_to_find_node_by_xml_name_in_xml_doc(start_node, xml_name, namespace, self).ok()
+        try_to_find_node_by_xml_name_in_xml_doc(start_node, xml_name, namespace, kind, self).ok()
     }
 
     pub fn find_message_by_xml_name(&self, xml_name: &str, _namespace: Option<&Namespace>) -> Option<&Rc<SoapMessage>> {
@@ -196,7 +231,8 @@ fn create_mod_name_for_namespace(abbreviation: &str) -> String {
 fn try_to_find_node_by_xml_name_in_xml_doc<'n>(
     start_node: &'n Node<'n, 'n>,
     xml_name: &str,
-    _namespace: Option<&Namespace>,
+    namespace: Option<&Namespace>,
+    kind: ComponentKind,
     doc: &mut RustDocument,
 ) -> WriterResult<Rc<RustNode>> {
     // get to the root of the document from the start node
@@ -212,6 +248,19 @@ fn try_to_find_node_by_xml_name_in_xml_doc<'n>(
             if let Some(node_name) = node.attribute("name") {
                 let (node_name, _node_namespace) = resolve_type(node_name, doc);
                 if node_name != xml_name {
+                    continue;
+                }
+
+                // a reference names a global component of one kind in one namespace: not a local element, an
+                // attribute or a message part that happens to have the same name, and not a type when an element
+                // is referred to (or the other way around)
+                let Some(schema) = node.parent().filter(|p| p.tag_name().name() == "schema") else {
+                    continue;
+                };
+                if !kind.matches_tag(node.tag_name().name()) {
+                    continue;
+                }
+                if namespace.is_some_and(|ns| schema.attribute("targetNamespace").is_some_and(|tns| tns != ns.namespace)) {
                     continue;
                 }
 
